@@ -263,20 +263,28 @@ Section Dispatch.
       sp ++ render_cres res ++ match res with CEOF | CErr => [] | _ => run_sizes st' r end
     end.
 
-  Fixpoint run_rounds (n : nat) (st : cstate) (mtu : Z) : bytes :=
-    match n with
-    | O => s " more-rounds"%bs
-    | S n' =>
+  (* one call of exchangeServiceInfoRound = messages until neither side announces more (the owner side is silent here) *)
+  Fixpoint run_call (fuel : nat) (st : cstate) (mtu : Z) : bytes * option cstate :=
+    match fuel with
+    | O => (s " fuel"%bs, None)
+    | S f =>
       match round st mtu with
-      | RFail => s " fail"%bs
-      | ROutOfFuel => s " oof"%bs
+      | RFail => (s " fail"%bs, None)
+      | ROutOfFuel => (s " oof"%bs, None)
       | RRound kvs more st' =>
-        s " (R"%bs ++ flat_map (fun kv => sp ++ render_cres (CKV (fst kv) (snd kv))) kvs
-        ++ (if more then s " more)"%bs else s " last)"%bs)
-        ++ match kvs, more, cs_cur st', cs_queue st' with
-           | [], false, None, [] => []
-           | _, _, _, _ => run_rounds n' st' mtu
-           end
+        let txt := s " (R"%bs ++ flat_map (fun kv => sp ++ render_cres (CKV (fst kv) (snd kv))) kvs
+                   ++ (if more then s " more)"%bs else s " last)"%bs) in
+        if more then let (t, o) := run_call f st' mtu in (txt ++ t, o) else (txt, Some st')
+      end
+    end.
+
+  Fixpoint run_calls (n : nat) (fuel : nat) (st : cstate) (mtu : Z) : bytes :=
+    match n with
+    | O => []
+    | S n' =>
+      match run_call fuel st mtu with
+      | (t, Some st') => t ++ run_calls n' fuel st' mtu
+      | (t, None) => t
       end
     end.
 
@@ -292,9 +300,9 @@ Section Dispatch.
       end
     else if bytes_eqb kind (s "chunk.rounds"%bs) then
       match args with
-      | [AL items; AZ mtu] =>
+      | [AL items; AZ mtu; AN calls] =>
         match args_bytes items with
-        | Some q => Some (s "ok"%bs ++ run_rounds (S (S (length q + N.to_nat (N.of_nat (length (concat q)))))) (mkcs None q) mtu)
+        | Some q => Some (s "ok"%bs ++ run_calls (N.to_nat calls) (S (S (length q + length (concat q)))) (mkcs None q) mtu)
         | None => Some bad_args
         end
       | _ => Some bad_args
